@@ -862,7 +862,156 @@ class Engine:
     def s_While(self, fr, st, s):
         return self._loop(fr, st, s, None)
 
+    # ---- generator inlining -------------------------------------------------------------------------------------
+    def _inline_generator(self, fr, target, iter_expr, body):
+        """``for T in G(args): BODY`` where G is a generator function of the same module:  the statements of G with every
+        ``yield v`` replaced by ``T = v; BODY`` (G's locals renamed apart, its parameters bound first).  The rewriting is
+        exact when BODY neither breaks out of / continues the loop nor can an exception of BODY be caught by G, and G has no
+        ``return <value>`` / ``yield from``; anything else -> None (the iteration stays opaque)."""
+        import copy
+        if not (isinstance(iter_expr, ast.Call) and isinstance(iter_expr.func, ast.Name) and fr.func is not None):
+            return None
+        if any(isinstance(a, ast.Starred) for a in iter_expr.args) or any(k.arg is None for k in iter_expr.keywords):
+            return None
+        if iter_expr.func.id in getattr(fr.func, "locals", ()):
+            return None
+        r = self.db.resolve_global(fr.func.module, iter_expr.func.id)
+        if not (r and r[0] == "func"):
+            return None
+        g = r[1]
+        if not g.is_generator or g.module is not fr.func.module or g.cls is not None or g.qual in fr.stack_quals() or g is fr.func:
+            return None
+        if getattr(g.node.args, "vararg", None) or getattr(g.node.args, "kwarg", None) or g.node.args.kwonlyargs:
+            return None
+
+        # BODY must not break / continue at its own loop level
+        def has_jump(stmts):
+            for st_ in stmts:
+                if isinstance(st_, (ast.Break, ast.Continue)):
+                    return True
+                if isinstance(st_, (ast.For, ast.While, ast.FunctionDef, ast.AsyncFunctionDef, ast.ClassDef)):
+                    if any(has_jump(getattr(st_, "orelse", []) or []) for _ in (0,)):
+                        return True
+                    continue
+                for fld in ("body", "orelse", "finalbody"):
+                    if has_jump(getattr(st_, fld, []) or []):
+                        return True
+                for h_ in getattr(st_, "handlers", []) or []:
+                    if has_jump(h_.body):
+                        return True
+            return False
+        if has_jump(body):
+            return None
+        gbody = list(g.node.body)
+        if gbody and isinstance(gbody[0], ast.Expr) and isinstance(gbody[0].value, ast.Constant) and isinstance(gbody[0].value.value, str):
+            gbody = gbody[1:]
+        yields = [n for n in own_nodes(g.node) if isinstance(n, (ast.Yield, ast.YieldFrom))]
+        if not yields or any(isinstance(n, ast.YieldFrom) or n.value is None for n in yields):
+            return None
+        if any(isinstance(n, ast.Return) and n.value is not None for n in own_nodes(g.node)):
+            return None
+        if any(isinstance(n, (ast.FunctionDef, ast.AsyncFunctionDef, ast.Lambda, ast.ClassDef, ast.Global, ast.Nonlocal)) for n in own_nodes(g.node) if n is not g.node):
+            return None
+        # every yield is an expression statement, not under a try (an exception of BODY must not reach G's handlers)
+        ok_yields = set()
+
+        def scan(stmts, in_try):
+            for st_ in stmts:
+                if isinstance(st_, ast.Expr) and isinstance(st_.value, ast.Yield):
+                    if in_try:
+                        return False
+                    ok_yields.add(id(st_.value))
+                    continue
+                if isinstance(st_, ast.Return):
+                    return False        # an early `return` of G would have to leave the inlined region
+                for fld in ("body", "orelse", "finalbody"):
+                    sub = getattr(st_, fld, None)
+                    if isinstance(sub, list) and sub and isinstance(sub[0], ast.stmt):
+                        if not scan(sub, in_try or (isinstance(st_, (ast.Try, ast.With)) and fld == "body")):
+                            return False
+                for h_ in getattr(st_, "handlers", []) or []:
+                    if not scan(h_.body, in_try):
+                        return False
+            return True
+        if not scan(gbody, False) or ok_yields != {id(y) for y in yields}:
+            return None
+        # bind the arguments
+        pos = list(g.posparams)
+        bound = {}
+        for i_, a in enumerate(iter_expr.args):
+            if i_ >= len(pos):
+                return None
+            bound[pos[i_]] = a
+        for k in iter_expr.keywords:
+            if k.arg not in pos or k.arg in bound:
+                return None
+            bound[k.arg] = k.value
+        defaults = g.node.args.defaults
+        for j, d_ in enumerate(defaults):
+            pn = pos[len(pos) - len(defaults) + j]
+            bound.setdefault(pn, d_)
+        if set(bound) != set(pos):
+            return None
+        n_ = next(self.counter)
+        ren = {nm: "__gen%d_%s" % (n_, nm) for nm in set(g.locals) | set(pos)}
+
+        class Ren(ast.NodeTransformer):
+            def visit_Name(self, node):
+                if node.id in ren:
+                    return ast.copy_location(ast.Name(id=ren[node.id], ctx=node.ctx), node)
+                return node
+
+        def subst(stmts):
+            out = []
+            for st_ in stmts:
+                if isinstance(st_, ast.Expr) and isinstance(st_.value, ast.Yield):
+                    val = Ren().visit(copy.deepcopy(st_.value.value))
+                    asg = ast.copy_location(ast.Assign(targets=[copy.deepcopy(target)], value=val), st_)
+                    ast.fix_missing_locations(asg)
+                    out.append(asg)
+                    out.extend(body)
+                    continue
+                new = copy.copy(st_)
+                for fld, v in ast.iter_fields(st_):
+                    if isinstance(v, list) and v and isinstance(v[0], ast.stmt):
+                        setattr(new, fld, subst(v))
+                    elif isinstance(v, list) and v and isinstance(v[0], ast.ExceptHandler):
+                        hs = []
+                        for h_ in v:
+                            h2 = copy.copy(h_)
+                            h2.body = subst(h_.body)
+                            if h2.type is not None:
+                                h2.type = Ren().visit(copy.deepcopy(h2.type))
+                            if h2.name in ren:
+                                h2.name = ren[h2.name]
+                            hs.append(h2)
+                        setattr(new, fld, hs)
+                    elif isinstance(v, ast.AST) and not isinstance(v, ast.stmt):
+                        setattr(new, fld, Ren().visit(copy.deepcopy(v)))
+                    elif isinstance(v, list) and v and isinstance(v[0], ast.AST):
+                        setattr(new, fld, [Ren().visit(copy.deepcopy(x)) for x in v])
+                new._sa_inlined_from = st_
+                out.append(new)
+            return out
+        prelude = []
+        for pn in pos:
+            asg = ast.copy_location(ast.Assign(targets=[ast.Name(id=ren[pn], ctx=ast.Store())], value=bound[pn]), iter_expr)
+            ast.fix_missing_locations(asg)
+            prelude.append(asg)
+        return prelude + subst(gbody)
+
     def s_For(self, fr, st, s):
+        if not st.orelse and getattr(self, "inline_generators", True):
+            syn = self._inline_generator(fr, st.target, st.iter, st.body)
+            if syn is not None:
+                for x in syn:
+                    if isinstance(x, (ast.For, ast.While)):
+                        x._sa_consumer = st
+                outs = self.block(fr, syn, [s])
+                for s2 in outs:
+                    for k in [k for k in s2.env if k.startswith("__gen")]:
+                        s2.env.pop(k, None)
+                return outs
         out = []
         for s2, it in self.eval(fr, st.iter, s):
             seq = self._concrete_seq(it)
@@ -1477,9 +1626,27 @@ class Engine:
                 return ("atom", ("isnone", b.term))
         if isinstance(a, Con) and isinstance(b, Con):
             return a.value is b.value if isinstance(a.value, (bool, type(None))) else a.value == b.value
+        for x, y in ((a, b), (b, a)):
+            # a private sentinel (`_END = object()`, used only as a default of next()/.get() and in identity tests) is
+            # identical to nothing but itself: not to a tuple / number / string built elsewhere, not to another object, and
+            # not to a value pulled out of an iterator
+            if isinstance(x, Obj) and isinstance(x.oid, tuple) and len(x.oid) == 3 and x.oid[0] == "global" and self._private_sentinel(x.oid[1], x.oid[2]):
+                if isinstance(y, Obj):
+                    return x.oid == y.oid
+                if isinstance(y, (Tup, Num, Str, Con, Bool, Ref)):
+                    return False
+                if isinstance(y, Unk) and isinstance(y.term, tuple) and y.term and y.term[0] in ("next", "elem", "item"):
+                    return False
         if isinstance(a, Obj) and isinstance(b, Obj):
             return True if a.oid == b.oid else ("atom", ("same", tuple(sorted([repr(a.oid), repr(b.oid)]))))
         return self._eq(a, b, s)
+
+    def _private_sentinel(self, mod, name):
+        key = ("sentinel", mod, name)
+        if key not in self._stable_global:
+            from .db import is_private_sentinel
+            self._stable_global[key] = bool(self.stable_global(mod, name) and is_private_sentinel(self.db, mod, name))
+        return self._stable_global[key]
 
     def _eq(self, a, b, s):
         if isinstance(a, Con) and isinstance(b, Con):
@@ -1802,6 +1969,35 @@ class Engine:
         ``for <target> in <iter>: if <conds>: result.<meth>(<elt>)``: one symbolic iteration; client hooks see the same
         events (on_loop_head, the add/append call, on_loop) as for the statement form.  The result is an opaque container."""
         gen = e.generators[0]
+        if getattr(self, "inline_generators", True) and self._inline_generator(fr, gen.target, gen.iter, [ast.Pass()]) is not None:
+            # over a generator function of the module: the statement form, so that the generator's loop and this
+            # comprehension's filter / element are summarised as one loop (see _inline_generator)
+            tmp = "__comp%d" % next(self.counter)
+            init = ast.Assign(targets=[ast.Name(id=tmp, ctx=ast.Store())],
+                              value=ast.List(elts=[], ctx=ast.Load()) if meth == "append" else ast.Call(func=ast.Name(id="set", ctx=ast.Load()), args=[], keywords=[]))
+            add = ast.Expr(value=ast.Call(func=ast.Attribute(value=ast.Name(id=tmp, ctx=ast.Load()), attr=meth, ctx=ast.Load()), args=[e.elt], keywords=[]))
+            body = [add]
+            if gen.ifs:
+                test = gen.ifs[0] if len(gen.ifs) == 1 else ast.BoolOp(op=ast.And(), values=list(gen.ifs))
+                body = [ast.If(test=test, body=[add], orelse=[])]
+            loop = ast.For(target=gen.target, iter=gen.iter, body=body, orelse=[])
+            for x in (init, loop):
+                ast.copy_location(x, e)
+                ast.fix_missing_locations(x)
+            loop._sa_comp = e
+            saved0 = {n.id: s.env.get(n.id) for n in ast.walk(gen.target) if isinstance(n, ast.Name)}
+            outs0 = []
+            for s2 in self.block(fr, [init, loop], [s]):
+                v = s2.env.pop(tmp, Unk(self.fresh("comp")))
+                for k, old_ in saved0.items():
+                    if old_ is None:
+                        s2.env.pop(k, None)
+                    else:
+                        s2.env[k] = old_
+                for k in [k for k in s2.env if k.startswith("__gen")]:
+                    s2.env.pop(k, None)
+                outs0.append((s2, v))
+            return outs0
         shim = ast.copy_location(ast.For(target=gen.target, iter=gen.iter, body=[ast.copy_location(ast.Expr(value=e.elt), e)], orelse=[]), e)
         shim._sa_func = getattr(e, "_sa_func", None)
         result = Unk(self.fresh("comp"))
@@ -1858,6 +2054,28 @@ class Engine:
         out = []
         for s2, vals in accs:
             # comprehension variables do not leak
+            for k, v in saved.items():
+                if v is None:
+                    s2.env.pop(k, None)
+                else:
+                    s2.env[k] = v
+            out.append((s2, Tup(vals, "list")))
+        return out
+
+    def e_GeneratorExp(self, fr, e, s):
+        """a generator expression over iterables of statically known length is its element sequence (laziness is not
+        modelled: the consumers the analysed code uses -- update / extend / join / tuple / sorted -- read it once, whole)"""
+        if not isinstance(e.elt, ast.AST) or any(g.is_async for g in e.generators):
+            return self._comp(fr, e, s)
+        saved = {g.target.id: s.env.get(g.target.id) for g in e.generators if isinstance(g.target, ast.Name)}
+        try:
+            accs = self._unroll_comp(fr, e, s)
+        except AnalysisError:
+            accs = None
+        if accs is None:
+            return self._comp(fr, e, s)
+        out = []
+        for s2, vals in accs:
             for k, v in saved.items():
                 if v is None:
                     s2.env.pop(k, None)
